@@ -276,5 +276,9 @@ class ZMQEventLoop(EventLoop):
                 self._did_something = True
 
         for queue in ready:
-            self._queue_callbacks[queue]()
+            callback = self._queue_callbacks.get(queue)
+            if callback is None:
+                # the watch was removed by a callback called earlier in this batch
+                continue
+            callback()
             self._did_something = True
